@@ -266,3 +266,82 @@ func TestC04_ceiling_approach(t *testing.T) {
 		Gen:  genC04C, Run: runC04C,
 	})
 }
+
+// A service in steady state for a long time: one RTT (with a little jitter or none), one load level, a drop every so
+// often or never, for tens of thousands of samples, with probes coming round hundreds of times. Counters of
+// consecutive "stable" observations, back-off shifts and accumulated rounding only show after that many repetitions
+// of the same thing. Judged by C04's oracle after every sample.
+
+type c04sCase struct {
+	Cfg       LimitCfg `json:"cfg"`
+	N         int      `json:"n"`
+	RTT       int64    `json:"rtt"`
+	Jitter    int64    `json:"jitter"`     // rtt varies in [RTT, RTT+Jitter] by a fixed pattern
+	Load      string   `json:"load"`       // dbl | eq | third
+	DropEvery int      `json:"drop_every"` // 0 = never
+}
+
+func genC04S(t *rapid.T) c04sCase {
+	c := c04sCase{Cfg: genLimitCfg(t, []string{"vegas", "gradient", "gradient", "gradient2", "aimd"}, true)}
+	switch c.Cfg.Algo {
+	case "gradient":
+		c.Cfg.ProbeInterval = rapid.SampledFrom([]int{1, 2, 2, 3, 5, 10, 50, 0}).Draw(t, "pi")
+	case "vegas":
+		c.Cfg.ProbeMult = rapid.SampledFrom([]int{1, 1, 2, 5, 30, 0}).Draw(t, "pm")
+	}
+	c.N = rapid.SampledFrom([]int{500, 2000, 2000, 8000, 20000, 60000}).Draw(t, "n")
+	c.RTT = rapid.OneOf(rapid.Int64Range(1, 1000), rapid.Int64Range(100_000, 50_000_000), rapid.Just(int64(0))).Draw(t, "rtt")
+	c.Jitter = rapid.SampledFrom([]int64{0, 0, 0, 1, 7, 1000}).Draw(t, "jitter")
+	c.Load = rapid.SampledFrom([]string{"dbl", "dbl", "eq", "third"}).Draw(t, "load")
+	c.DropEvery = rapid.SampledFrom([]int{0, 0, 0, 2, 17, 256, 1000}).Draw(t, "dropEvery")
+	return c
+}
+
+func runC04S(_ *testing.T, c c04sCase) kit.Outcome {
+	b, err := tryBuildLimit(c.Cfg, nil)
+	if err != nil {
+		return kit.Outcome{Labels: []string{"discard:constructor-rejects"}}
+	}
+	floor := c.Cfg.floorOf()
+	initial := b.Outer.EstimatedLimit()
+	if initial < floor {
+		return kit.Outcome{Labels: []string{"discard:default-initial-below-min"}}
+	}
+	ceil := maxInt(c.Cfg.Max, initial)
+	maxInf, start := 0, int64(0)
+	for i := 0; i < c.N; i++ {
+		s := Sample{RTT: c.RTT, Rel: c.Load, Drop: c.DropEvery > 0 && i%c.DropEvery == c.DropEvery-1}
+		if c.Jitter > 0 {
+			s.RTT += int64(i*7919) % (c.Jitter + 1)
+		}
+		if c.Cfg.Windowed || c.Cfg.Outer2 == "windowed" {
+			start += 50_000_000
+			s.Start = start
+		}
+		before := b.Outer.EstimatedLimit()
+		inf := s.inflight(before)
+		if inf > maxInf {
+			maxInf = inf
+		}
+		if p := safeSample(b, s, inf); p != nil {
+			return kit.Viol(c.Cfg.Algo+":panic", "steady state, sample %d of %d (%+v, in-flight %d, estimate before %d) panicked: %v", i, c.N, s, inf, before, p)
+		}
+		hi := ceil
+		if c.Cfg.Algo == "aimd" {
+			hi = maxInt(initial, maxInf+c.Cfg.IncreaseBy)
+		}
+		if after := b.Outer.EstimatedLimit(); after < floor || after > hi {
+			return kit.Viol(c.Cfg.Algo+":bounds", "steady state, after sample %d of %d (%+v, in-flight %d): estimate %d -> %d outside [%d,%d]", i, c.N, s, inf, before, after, floor, hi)
+		}
+	}
+	return kit.Outcome{NonTrivial: c.N >= 8000, Labels: []string{"algo:" + c.Cfg.Algo, fmt.Sprintf("n:%d", c.N)}}
+}
+
+func TestC04_steady(t *testing.T) {
+	kit.RequireMode(t, "std")
+	kit.Check(t, kit.Prop[c04sCase]{
+		ID: "C04", Quick: 400, Thor: 60_000,
+		Rule: "every algorithm (alone / windowed / traced) in steady state: 500-60000 samples at one RTT (no, small or large jitter; also 0), one load level (saturated / at the limit / idle), a drop every 2 / 17 / 256 / 1000 samples or never, probe intervals 1-50 and the defaults: no panic, estimate in bounds after every sample; non-trivial = at least 8000 samples",
+		Gen:  genC04S, Run: runC04S,
+	})
+}
